@@ -87,6 +87,9 @@ func boundOK(ecoName, b string) bool {
 	if strings.ContainsAny(b, " \t,|") {
 		return false
 	}
+	if ecoName == "composer" && strings.Contains(b, "@") {
+		return false // '@' introduces composer's stability flag
+	}
 	return true
 }
 
